@@ -1,5 +1,6 @@
 """C10 — Debug prints like the std derive minus ignored fields; transparent delegates (E-run, twin)."""
 import json
+import re
 
 from . import common as C
 
@@ -108,10 +109,13 @@ def ctor(spec, vi, which, twin, prefix=""):
     return head
 
 
-def render(spec):
+def render(spec, control=False):
     dx, _ = type_text(spec, False)
+    if control:
+        dx = re.sub(r"#\[debug\([a-z]+\)\] ", "", dx)
+        dx = dx.replace("#[::derive_ex::derive_ex(Debug)]", "#[derive(Debug)]").replace("#[derive(::derive_ex::Ex)]\n#[derive_ex(Debug)]", "#[derive(Debug)]")
     tw, tw_generic = type_text(spec, True)
-    inner_dx = "#[::derive_ex::derive_ex(Debug)]\npub struct Inner { pub a: u8, pub b: f64 }"
+    inner_dx = ("#[derive(Debug)]" if control else "#[::derive_ex::derive_ex(Debug)]") + "\npub struct Inner { pub a: u8, pub b: f64 }"
     inner_tw = "#[derive(Debug)]\npub struct Inner { pub a: u8, pub b: f64 }"
     out = [inner_dx, dx, "pub mod tw {", inner_tw, tw, "}", "pub fn run() {"]
     for vi, v in enumerate(spec["variants"]):
@@ -187,7 +191,11 @@ def run(rep, tier, rng):
     while len(specs) < n0 + NRANDOM[tier]:
         specs.append(gen_spec(rng))
     cases = [C.Case(f"c{i}", render(s), {"spec": s}) for i, s in enumerate(specs)]
-    _, notes = C.run_cases(cases, "c10", header=HEADER, batch_size=40)
+    ctls = [C.Case(f"k{i}", render(s, control=True), {}) for i, s in enumerate(specs)]
+    _, notes = C.run_cases(cases + ctls, "c10", header=HEADER, batch_size=40)
+    ctl_ok = {c.name[1:]: c.status == "ok" for c in ctls}
+    rep.count("controls_compiled", sum(ctl_ok.values()))
+    rep.count("controls_rejected", sum(1 for v in ctl_ok.values() if not v))
     for n in notes:
         rep.inconcl(n)
     sigs = {}
@@ -197,8 +205,8 @@ def run(rep, tier, rng):
             continue
         if c.status == "compile_fail":
             who, d = C.blame(c)
-            if who == "harness":
-                rep.inconcl(f"generated program does not compile outside derive_ex's output: {d['message'][:150]}")
+            if who == "harness" and not ctl_ok.get(c.name[1:]):
+                rep.inconcl(f"generated program does not compile and neither does its std-derive control: {d['message'][:150]}")
                 rep.count("harness_compile_errors")
                 continue
             sigs.setdefault(f"C10|compile_fail|{d['code']}|{(d['message'] or '')[:50]}", []).append((c, f"does not compile: {(d['message'] or '')[:200]}"))
